@@ -20,6 +20,7 @@ GCMembers == { [k |-> "PT", l |-> "XY", v |-> C(2,1)], [k |-> "PT", l |-> "XYZ",
                [k |-> "MPG", l |-> "XY", v |-> <<<<>>, <<<<C(2,1), C(2,2)>>>>>>],
                [k |-> "GC", l |-> "No", v |-> <<[k |-> "MPT", l |-> "XYZ", v |-> <<NIL, C(3,1)>>]>>],
                [k |-> "GC", l |-> "No", v |-> <<>>] }
+GCSecond == { [k |-> "PT", l |-> "XY", v |-> C(2,1)], [k |-> "PT", l |-> "XYZ", v |-> <<>>] }   \* members of the two-argument Push
 SetVals(k, s) ==                                         \* whole values for SetCoords
   CASE k = "PT" -> {C(s,1)}
     [] k \in {"LS", "LR"} -> Lines(s)
@@ -33,6 +34,7 @@ AllActsOf(st) ==
   LET k == st.o[1].k  s == Stride(st.o[1].l) IN
   IF k = "GC"
   THEN [op : {"push"}, to : Targets(st), part : GCMembers]
+       \cup [op : {"push2"}, to : Targets(st), part : GCSecond, part2 : GCSecond]
        \cup [op : {"setlayout"}, to : Targets(st), l : {"No", "XY", "XYZ"}]
        \cup [op : {"srid"}, to : Targets(st), srid : {4326}]
   ELSE (IF IsMulti(k) THEN [op : {"push"}, to : Targets(st), part : PartsOf(k, s)]
